@@ -510,7 +510,7 @@ impl<R: Round> Context<R> {
             let n = ilog_exact(B, NewB);
             if n > 1 {
                 let exp = repr.exponent * n as isize;
-                return Exact(Repr::new(repr.significand, exp));
+                return self.repr_round(Repr::new(repr.significand, exp));
             }
         }
 
@@ -530,7 +530,7 @@ impl<R: Round> Context<R> {
             // if the exponent is small enough, directly evaluate the exponent
             if repr.exponent >= 0 {
                 let signif = repr.significand * Repr::<B>::BASE.pow(repr.exponent as usize);
-                Exact(Repr::new(signif, 0))
+                self.repr_round(Repr::new(signif, 0))
             } else {
                 let num = Repr::new(repr.significand, 0);
                 let den = Repr::new(Repr::<B>::BASE.pow(-repr.exponent as usize).into(), 0);
